@@ -30,7 +30,7 @@ import sys
 from . import lib
 
 RULE = ("entries: 3 real cache entries (different sources / environments); every truncation offset of each, plus stale "
-        "checksum, 5 hand-made foreign magics, entries WRITTEN BY THE CODE UNDER TEST under 9 simulated other interpreters (child "
+        "checksum, 5 hand-made foreign magics, entries WRITTEN BY THE CODE UNDER TEST under 5 (thorough 9) simulated other interpreters (child "
         "process with sys.version_info / hexversion replaced before jinja2 is imported; control: the same under this version must "
         "hit), 12 corrupt pickles, corrupt marshal parts, bit flips, empty input; each through Bucket.bytecode_from_string and a "
         "subset through FileSystemBytecodeCache files and a truncating memcached client.  crash points: before / after "
@@ -191,7 +191,7 @@ def run_flips(ctx, jinja2, table, only=None):
                 continue
             toks = [f"{only['pos']}.{only['bit']}"]
         else:
-            toks = [f"{p}.{b}" for p, b in flip_positions(ctx.rng, len(data), len(bc_magic), ctx.size(60, 600))]
+            toks = [f"{p}.{b}" for p, b in flip_positions(ctx.rng, len(data), len(bc_magic), ctx.size(30, 600))]
         p = subprocess.run([lib.PY, "-c", "from harness import c27; c27.flip_child()", str(i)] + toks, capture_output=True, text=True,
                            env=dict(lib.IMPL_ENV, PYTHONPATH=lib.SRC + ":" + lib.ROOT), timeout=600, cwd=lib.ROOT)
         rows = [json.loads(l) for l in p.stdout.splitlines() if l.startswith("{")]
@@ -657,6 +657,8 @@ def run_foreign(ctx, jinja2, table, only=None):
     here = (sys.version_info[0], sys.version_info[1])
     versions = [here, (3, here[1] - 1), (3, here[1] + 1), (3, here[1] + 2), (3, 0), (3, 255 if here[1] != 255 else 254),
                 (2, here[1]), (4, here[1]), (4, 0), (2, 7)]
+    if ctx.tier == "quick":
+        versions = versions[:3] + versions[6:8] + versions[4:5]
     d = os.path.join(ctx.bdir, "foreign")
     for (maj, mnr) in versions:
         if only is not None and only.get("version") != [maj, mnr]:
